@@ -87,7 +87,7 @@ func (e *C15) Assumptions() []string {
 }
 func (e *C15) Plan(tier string, seed uint64) int {
 	if tier == "thorough" {
-		return 40000
+		return 120000
 	}
 	return 6000
 }
